@@ -16,7 +16,10 @@ Record case := {
   c_cfg : econfig;                        (* rules in force at the start *)
   c_ops : list wop;
   c_obs : list (list (option N));         (* per op: instance behind each slot, numbered by first-seen pointer *)
-  c_reload : option robs
+  c_reload : option robs;
+  c_conc : option (N * N * N)             (* concurrent creation: (goroutines, rounds, rounds in which the goroutines,
+                                             asking the factory for the same definition at the same time after a
+                                             clear, did not all get the same instance) *)
 }.
 
 (* ---- canonical numbering by first occurrence ---- *)
@@ -136,4 +139,7 @@ Definition check (c : case) : codes :=
   let ls := labels 0%N (c_cfg c) [] (c_ops c) in
   (if model_agrees c && match c_reload c with Some r => reload_agrees r | None => true end then [] else [code_mismatch]) ++
   nodup N.eq_dec (all_pairs pair_codes (zip_some (concat ls) (concat (c_obs c)))) ++
-  match c_reload c with Some r => reload_codes r | None => [] end.
+  match c_reload c with Some r => reload_codes r | None => [] end ++
+  (* 17: workers creating the sampler for the same definition at the same time got different instances
+         (the model's create is one atomic step: lookup-or-create under the factory mutex) *)
+  match c_conc c with Some (_, _, bad) => if (bad =? 0)%N then [] else [17%N] | None => [] end.
